@@ -165,6 +165,7 @@ type RunResult struct {
 // then the initialisers of every Goit package and cmd's init() functions run from SSA against the model FS.
 func (x *Exec) startProcess() {
 	x.globals = map[*ssa.Global]*Value{}
+	x.stdInit = map[*ssa.Package]bool{}
 	x.cmds = nil
 	x.flagsOf = map[*Value]*FlagSetObj{}
 	cmdPkg := x.ld.pkgs[repoMod+"/cmd"]
